@@ -391,7 +391,8 @@ def standard_build(chk: Check, gens, targets, theorems, prop_files, src=None):
             bad_here |= bad.get(f, set())
         src_file = src['file'] if src else None
         # the regenerated function bodies are imported by the source-tie modules only
-        other_bad = {f: v for f, v in bad.items() if f not in prop_files and f != src_file and f != 'BC/Gen/Funcs.lean'}
+        src_side = {src_file, 'BC/Gen/Funcs.lean'} | set(src.get('lemma_files', []) if src else [])
+        other_bad = {f: v for f, v in bad.items() if f not in prop_files and f not in src_side}
         if other_bad:
             chk.oblige('lean-build-deps', 'build', False, json.dumps({k: sorted(map(str, v)) for k, v in other_bad.items()}))
         main_ok = ok or (bool(bad) and not other_bad and not bad_here)     # only the source-tie module failed
@@ -402,6 +403,9 @@ def standard_build(chk: Check, gens, targets, theorems, prop_files, src=None):
                 chk.oblige('translate:funcs-typechecks', 'translation', False,
                            'BC/Gen/Funcs.lean does not compile: ' + ', '.join(sorted(map(str, bad['BC/Gen/Funcs.lean']))))
                 sbad = sbad | {'BC/Gen/Funcs.lean'}
+            for lf in src.get('lemma_files', []):
+                if lf in bad:
+                    sbad = sbad | {f'{lf}:{n}' for n in map(str, bad[lf])}
             saud = audit(chk.id, src['theorems'], src['module']) if (ok or (bool(bad) and not other_bad and not sbad)) else {}
             for t in src['theorems']:
                 if t in sbad:
